@@ -14,7 +14,7 @@ PROP = "C18"
 LEAN_MODULE = "Ztr.Props.C18"
 THEOREMS = ["Ztr.Bracket.C18_restored_all", "Ztr.Bracket.C18_restored", "Ztr.Bracket.C18_reverse_order",
             "Ztr.Bracket.C18_D21_witness"]
-RULE = ("every subset of {--gc 700 [10 [10]], -G DEBUG_*, --coverage, --profile cProfile, --buffer} (2^5, sampled in the "
+RULE = ("every subset of {--gc 700 [10 [10]], -G DEBUG_*, --coverage, --profile cProfile, --buffer, warnings='error', -D} (2^7, sampled in the "
         "quick tier) x endings {all pass, failing tests, -x, exception from a layer's testSetUp hook, KeyboardInterrupt "
         "in a test, exception from a layer's testTearDown hook after a skipped / failed / interrupted / failed-then-skipped test}; each case runs the real run_internal in a fresh worker process and snapshots gc thresholds/debug "
         "flags, traceback.format_exception/print_exception, sys.gettrace/threading.gettrace/sys.settrace, "
@@ -25,13 +25,13 @@ ASSUMPTIONS = ["exceptions raised by a feature's own global_setup (before the tr
                "a trace/profile hook installed before an in-process --coverage/--profile run is KNOWN-FINDING D21"]
 TRUSTED = ["CPython gc / sys / threading / warnings / traceback module attributes (snapshotted, not modelled further)"]
 
-OPTS = ["gc", "gcopt", "coverage", "profile", "buffer"]
+OPTS = ["gc", "gcopt", "coverage", "profile", "buffer", "werror", "postmortem"]
 ENDINGS = ["pass", "fail", "stop", "hook-raises", "interrupt", "ttd-raises-skip", "ttd-raises-fail", "ttd-raises-interrupt",
            "ttd-raises-failskip", "chdir", "rebind-err", "rebind-out", "rebind-both"]
 FIELDS = ["gcThr", "gcDbg", "tbFormat", "tbPrint", "trace", "thrTrace", "setTrace", "profile", "warn", "stdout", "stderr"]
 
 
-def make_world(ctx, ending, idx):
+def make_world(ctx, ending, idx, opts=()):
     import random
     rng = random.Random(idx)
     kinds = {"pass": ["pass"], "fail": ["pass", "fail", "error"], "stop": ["fail", "pass"],
@@ -64,6 +64,11 @@ def make_world(ctx, ending, idx):
             rng.choice([t["setUp"], t["body"], t["tearDown"]])["warnfilter"] = True
         if rng.random() < 0.3 and ending not in ("interrupt", "ttd-raises-interrupt"):
             rng.choice([t["setUp"], t["body"], t["tearDown"]])["settrace"] = True
+    if "gc" in opts:
+        # ... or tunes the collector for good: with --gc the thresholds of before the run come back all the same
+        for t in w["tests"]:
+            if rng.random() < 0.4:
+                rng.choice([t["setUp"], t["body"], t["tearDown"]])["gcthreshold"] = True
     if ending == "chdir" and w["tests"]:
         # a test that leaves the process in another directory (relative paths of later tear-downs break)
         w["tests"][0]["body"]["chdir"] = True
@@ -79,7 +84,7 @@ def make_world(ctx, ending, idx):
 
 
 def run_case(ctx, opts, ending, idx, pre_trace=False):
-    d = make_world(ctx, ending, idx)
+    d = make_world(ctx, ending, idx, opts)
     args = ["--path", d, "-v"]
     if "gc" in opts:
         args += ["--gc", "700"] + (["--gc", "10", "--gc", "10"] if idx % 2 else [])
@@ -94,7 +99,13 @@ def run_case(ctx, opts, ending, idx, pre_trace=False):
         args.append("--buffer")
     if ending == "stop":
         args.append("-x")
+    if "postmortem" in opts and ending in ("pass", "interrupt"):
+        # -D with nothing to debug (no test fails): the tests run through another loop of the runner
+        args.append("-D")
     case = {"dir": d, "args": args, "pre_trace": pre_trace}
+    if "werror" in opts:
+        # the embedding program asks for warnings to be errors (run_internal(..., warnings="error"))
+        case["warnings"] = "error"
     if idx % 4 == 2:
         # the embedding program has installed traceback functions of its own before the run
         case["pre_tb"] = True
@@ -107,7 +118,7 @@ def run_case(ctx, opts, ending, idx, pre_trace=False):
     # an interpreter started with a -W option (sys.warnoptions non-empty): the runner then installs no filter of its own
     wopt = ["-W", "ignore::ImportWarning"] if idx % 3 == 1 else []
     p = subprocess.run([common.PY] + wopt + [os.path.join(common.VERIF, "harness", "globals_worker.py"), json.dumps(case)],
-                       stdout=subprocess.PIPE, stderr=subprocess.PIPE, env=env, timeout=180)
+                       stdin=subprocess.DEVNULL, stdout=subprocess.PIPE, stderr=subprocess.PIPE, env=env, timeout=180)
     shutil.rmtree(d, ignore_errors=True)
     try:
         res = json.loads(p.stdout.decode().strip().split("\n")[-1])
